@@ -644,6 +644,17 @@ pub fn run_property(prop: &Property, cfg: &RunConfig) -> i32 {
       }
       let r = exec_case(prop, scenario, &bytes, true);
       regress_ran += 1;
+      // a replay file holds choice bytes: if the generator has changed since it was written,
+      // it may decode to another case and no longer guard what it was kept for
+      if let Ok(text) = fs::read_to_string(&f) {
+        if let Ok(v) = serde_json::from_str::<Value>(&text) {
+          let stored: String = v["case"].as_str().unwrap_or("").chars().take(60).collect();
+          let now: String = r.outcome.sample.chars().take(60).collect();
+          if stored.len() == 60 && now.len() == 60 && stored != now && !stored.contains("Instant {") {
+            eprintln!("note: regression input {} now decodes to another case than the one it was saved for (generator changed?)", f.display());
+          }
+        }
+      }
       if let Some(e) = r.harness_error {
         eprintln!("HARNESS-ERROR: {e} (regression input {})", f.display());
         return 2;
